@@ -17,6 +17,8 @@ claimed={
    ref="DESIGN.md section 4 C17", technique="bounded symbolic execution of go/ssa over uninterpreted hash/cipher, one inductive step per operation, SMT (z3 5.1, cvc5 cross-check); counterexamples replayed natively"),
  "C01":dict(text="Bounded symbolic model checking of the real SM3 state machine and KDF with the compression function uninterpreted: one Write/Sum/Marshal/Unmarshal/Reset step from an ARBITRARY valid state (every nx 0..63, arbitrary chaining value, arbitrary total length) against GB/T 32905 padding, so digests of arbitrarily long messages and arbitrary call histories follow by induction; the KDF through the real dispatcher of each build (purego kdfGeneric; amd64 kdf/kdfBy4/kdfBy8/prepareInitData on the scalar, SSSE3/AVX and AVX2 tiers with the lane kernels as footprint-checked contracts) for every nx and block-count class against H(z||ct); exported Kdf on used objects and consecutive calls (buffer reuse). The equivalence of blockGeneric with the standard's compression function and the assembly bodies are outside.",
    ref="DESIGN.md section 4 C01", technique="bounded symbolic execution of go/ssa with uninterpreted compression function, one inductive step per operation, SMT (z3 5.1, cvc5 cross-check); counterexamples replayed natively against the real assembly"),
+ "C11":dict(text="Bounded symbolic model checking of the real ZUC seekable cipher and MAC code with the keystream generator abstracted (state = stream identity + word counter, keystream words uninterpreted): one XORKeyStream / XORKeyStreamAt operation from an arbitrary state satisfying the representation invariant (positions, seek targets and bucket sizes on a boundary grid, data symbolic) yields src xor keystream at the absolute positions and re-establishes the invariant incl. every checkpoint, so arbitrary call histories follow by induction; 128-EIA3 and the ZUC-256 MAC (4/8/16-byte tags) for every message of 0..33 bytes plus 0..7 extra bits, 3-way write splits, interleaved Sum, reuse after Reset/Finish, against bit-by-bit keystream-window definitions. One known finding (ZUC-256 MAC tail, pinned by existing test vectors) is reported as KNOWN-FINDING. The generator core vs GM/T 0001 and the assembly are outside.",
+   ref="DESIGN.md section 4 C11", technique="bounded symbolic execution of go/ssa with uninterpreted keystream, inductive step from an arbitrary invariant-satisfying state, term normalisation + SMT (z3 5.1, cvc5 cross-check); counterexamples replayed natively against the real generator"),
 }
 NA={
  "C20":"data-race freedom over all schedules needs a concurrent execution model (threads, happens-before, sync/atomic); the go/ssa symbolic executor is sequential by construction and no Go symbolic concurrency engine is available in the image (DESIGN.md section 4 C20)",
